@@ -18,7 +18,7 @@ that passes the length guard, the new buffer is
 Nothing before the word and nothing after the cursor is touched. -/
 theorem insert_only_replaces_the_prefix (l : Line) (cpos : Int) (pfx value : List Nat)
     (h0 : 0 ≤ cpos) (h1 : cpos ≤ len l) (hp : (pfx.length : Int) ≤ cpos)
-    (hz : ∀ c ∈ value, c ≠ 0) (hg : ¬ (utf8 value).length < (utf8 pfx).length) :
+    (hz : ∀ c ∈ value, c ≠ 0) (hg : ¬ value.length < pfx.length) :
     insertCandidate l cpos pfx value =
       .ok (l.take (cpos - pfx.length).toNat ++ value ++ l.drop cpos.toNat, cpos - pfx.length + value.length) :=
   CompLine.insertCandidate_spec l cpos pfx value h0 h1 hp hz hg
